@@ -630,6 +630,7 @@ func init() {
 			return a
 		},
 		Also:        []string{"C01", "C02", "C03"},
+		MSpecs:      mspecsEvents, // silent mutations announced by resets whose re-fetches succeed, fail or time out
 		EnumPar:     enumResetPairs,
 		EnumParts:   map[string]int{"quick": 48, "thorough": 96},
 		Assumptions: append([]string{"reference matcher implements the wildcard semantics of the statement token-wise"}, e1Assumptions...),
